@@ -337,9 +337,21 @@ def run_saem_config(run, cfg, seed, fills, n_iter=10, n_burn_in=N_BURN_IN, n_ind
     df = P.missing_df(kind, seed, n_ind=n_ind, n_feat=n_feat)
     try:
         ref, its = fit_saem_record(kind, noise, src, n_feat, df, seed, n_iter, n_burn_in)
-    except Exception as e:  # the untampered run itself fails: not this property
+    except Exception as e:
+        # the zero-filled run itself fails.  A collapse of the estimate on a tiny cohort is not this property; anything else is compared with
+        # the SAME cohort without any missing entry: a fit that only aborts when entries are missing depends on the missing-data pattern
         run.count("skipped", f"saem:{kind}/{noise}: {type(e).__name__}")
         run.log(f"saem reference run failed for {kind}/{noise}: {type(e).__name__}: {e}")
+        if type(e).__name__ != "LeaspyConvergenceError":
+            full = synth.make_df(n_ind=n_ind, n_feat=n_feat, seed=seed, missing=0.0, joint=(kind == "joint"), kind=kind, visits=(3, 6))
+            try:
+                fit_saem_record(kind, noise, src, n_feat, full, seed, n_iter, n_burn_in)
+            except Exception:  # noqa: BLE001
+                return
+            run.case(("saem-fit-raises", kind, noise, src, seed))
+            run.fail(f"fit-past-burn-in:raises-only-with-missing-entries:{type(e).__name__}", f"{kind}/{noise}: the fit (n_iter {n_iter}, n_burn_in_iter {n_burn_in}) "
+                     f"raises {type(e).__name__}: {str(e)[:200]} on the cohort with missing entries and runs on the same cohort without any missing entry",
+                     dict(base, scenario="saem-noise", iteration=None))
         return
     run.count("saem-kind", f"{kind}/{noise}")
     ds = Dataset(synth.make_data(df, kind))
